@@ -4,6 +4,25 @@ Theorems of coq/C17 (eigen-truncation, definite-positive repair, sequencing of t
 vectors / clamping / options) + correspondence of the modelled functions with the library (the static functions of
 model_auto.cpp / foxleg.cpp are compiled into the harness from the current source text) + post-condition oracle on
 Model::fit / Model::fitFromVMap / ModelOptimSillsVario::fit / ModelOptimVario::fit + optional trace hook (hooks/C17.patch).
+
+Defects of the pinned tree reproduced by this check (keys -> cause -> candidate fix in /verif/fixes):
+  *:multi:goulard:constant-sill*:sill-undefined, ...:constant-sill:zero-total-sill:kriging-undefined-results
+        constant sill with several variables: fill(0.) inside the loop on variables wipes the diagonal            C17_1
+  *:intrinsic:crash                 option flag_intrinsic: sill1 never allocated, "alphau[icov] = value" builds a 0x0 matrix,
+                                    second Goulard pass indexes a (nvs2 x npadir) matrix as (1 x nvs2*npadir)                  C17_2
+  *:multi:*:exception-length-error  negative return of st_model_auto_count / st_vmap_auto_count not tested
+                                    (several variables without Goulard; variogram map with several variables)               C17_3
+  *:pair-without-valid-lag:sill-undefined   a pair of variables without any valid lag: 1/0 and 0/0 in the Goulard steps   C17_4
+  *:constraint:after-reduction:not-satisfied  bounds wiped when a structure is dropped after a non-converged run         C17_5
+  ModelOptim*::fit:empty-lag:crash  heap overflow in ModelOptimSillsVario::_compressArray when a lag is empty              C17_6
+  Model::fitFromVMap:isotropy-asked:ranges-differ, :rotation-locked:angles-changed   st_alter_vmap_optvar forces both     C17_7
+  *:constraint-sill:no-goulard:not-satisfied  sill constraints applied to the square root when the user switched Goulard off  C17_8
+  Model::fit:constraint-on-parameter-not-inferred:not-satisfied   constraint on an angle / anisotropy range that the library
+                                    decides not to infer is dropped silently                                              C17_9 (angles only)
+  Model::fit:exception-null-ellipsoid-radius (occasional)  third parameter of a Stable structure near its lower bound 0.001:
+                                    the scale underflows, Tensor throws, the exception leaves Model::fit                   C17_10
+  *:zero-total-sill / :singular-total-sill:kriging-undefined-results (occasional)  the PSD projection returns rank-deficient
+                                    (or zero) sills on tiny data sets: PSD, yet isotopic cokriging is singular            (no fix)
 """
 import sys, os, math, itertools, random
 sys.path.insert(0, os.path.dirname(__file__))
@@ -734,6 +753,7 @@ def check_fit_result(ctx, c, ii):
         # key of a crash / exception: the part of the configuration that selects the failing code
         if path in (2, 3) and d and d[2] > 0: return '%s:empty-lag:crash' % PATHS[path]      # heap corruption: crash or bad_alloc-like exception
         if opts[9] and kind == 'crash': return '%s:intrinsic:crash' % PATHS[path]
+        if kind.startswith('exception-') and kind != 'exception-length-error': return '%s:%s' % (PATHS[path], kind)
         return '%s:%s:%s:%s' % (PATHS[path], 'mono' if nvar == 1 else 'multi', 'goulard' if opts[1] else 'no-goulard', kind)
     if ii is None: return [(fatal('crash'), 'the process died (abort / segmentation fault / heap corruption) during the fit')]
     if ii == 'timeout': return [(fatal('no-termination'), 'the fit did not terminate within the time limit')]
